@@ -31,8 +31,14 @@ def _alarm(signum, frame):
 CASE_TIMEOUT = float(os.environ.get("VERIF_CASE_TIMEOUT", "60"))
 
 
-def exec_case(prop, case, ctx):
+def exec_case(prop, case, ctx, objmode=None):
     clamp_ranges(case)
+    if objmode and getattr(prop, "OBJ_MODES", True) and type(case) is dict and "_objmode" not in case:
+        case["_objmode"] = objmode  # (recorded with the case: a replay builds its objects in the same state)
+    from . import build as _build
+    _build.begin_case(case.get("_objmode") if type(case) is dict else None)
+    if type(case) is dict and case.get("_objmode"):
+        ctx.count("object-state:" + case["_objmode"])
     ctx.case = case
     ctx.evaluations += 1
     signal.setitimer(signal.ITIMER_REAL, getattr(prop, "CASE_TIMEOUT", CASE_TIMEOUT))
@@ -107,10 +113,16 @@ def main(argv=None):
         out["per_case"] = per_case
     else:
         n_strata = 0
+        from .build import OBJ_MODES
+        import copy as _copy
         for i, case in enumerate(prop.strata(a.tier)):
             if i % a.nshards == a.shard:
+                again = _copy.deepcopy(case) if (i // a.nshards) % (4 if a.tier == "quick" else 2) == 0 else None
                 exec_case(prop, case, ctx)
                 n_strata += 1
+                if again is not None:
+                    # the same stratum once more with the library's objects in another state (looked-at, copied, shared ...)
+                    exec_case(prop, again, ctx, objmode=OBJ_MODES[(i // a.nshards // 4) % len(OBJ_MODES)])
         budget = prop.budget(a.tier)
         scale = float(os.environ.get("VERIF_BUDGET_SCALE", "1"))
         budget = int(budget * scale)
@@ -126,7 +138,8 @@ def main(argv=None):
             except Exception as e:
                 ctx.harness_errors.append("gen: " + tb_str(e))
                 continue
-            exec_case(prop, case, ctx)
+            k = (i // a.nshards) % 10
+            exec_case(prop, case, ctx, objmode=OBJ_MODES[(i // a.nshards // 10) % len(OBJ_MODES)] if k >= 7 else None)
             n_random += 1
         out = result(ctx, prop, t0)
         out.update({"n_strata": n_strata, "n_random": n_random, "capped": capped})
